@@ -229,6 +229,9 @@ def part_c(say, n):
         good = [t for t, r in zip(sel, res) if r[0]]
         say("(c) %-4s: %d/%d two-stack runs accepted by SD2Trace" % (name, len(good), len(sel)))
         ok = ok and len(good) == len(sel)
+        # corruption experiments only on runs in which the specification has no choice that could explain a missing or an extra
+        # datagram: no one-shot drop / duplication / delay (which datagram it hits depends on the interleaving of the two loops)
+        good = [t for t in good if all(f["kind"] not in ("drop", "dup", "delay") for f in t["faults"])]
         row = {"recorded": len(sel), "accepted": len(good)}
         for kind in ("drop_output", "duplicate_output", "alter_ttl", "move_to_next_instant"):
             rng = random.Random("corrupt2/%s/%s" % (name, kind))
@@ -236,7 +239,7 @@ def part_c(say, n):
             for t in good:
                 tk = copy.deepcopy(t["ticks"])
                 # (not the last instant: a trace cut short is a prefix of a behaviour and rightly accepted)
-                cand = [i for i, x in enumerate(tk[:-1]) if x["outs"]]
+                cand = [i for i, x in enumerate(tk[:-1]) if x["outs"] and i > 0]      # (instant 0: the find of the watcher races the first offer)
                 if not cand:
                     continue
                 i = rng.choice(cand)
